@@ -255,6 +255,9 @@ func (b *builder) build(v ssa.Value) *Expr {
 	case *ssa.Alloc:
 		return &Expr{Op: "alloc", Name: x.Name()}
 	case *ssa.Phi:
+		if ce := b.counter(x); ce != nil {
+			return ce
+		}
 		var alts []*Expr
 		seen := map[string]bool{}
 		for _, ed := range x.Edges {
@@ -533,6 +536,7 @@ type reachDefs struct {
 	busy map[rdKey]bool
 	// allocs captured by a closure: their content may change at any call
 	captured map[*ssa.Alloc]bool
+	loopHits int
 }
 
 type rdDef struct {
@@ -671,9 +675,11 @@ func (rd *reachDefs) scan(blk *ssa.BasicBlock, idx int, a *ssa.Alloc, path []int
 		return e
 	}
 	if rd.busy[k] {
+		rd.loopHits++
 		return &Expr{Op: "loop", Name: a.Name()}
 	}
 	rd.busy[k] = true
+	hits0 := rd.loopHits
 	var alts []*Expr
 	for _, p := range blk.Preds {
 		e := rd.scan(p, len(p.Instrs), a, path)
@@ -691,7 +697,9 @@ func (rd *reachDefs) scan(blk *ssa.BasicBlock, idx int, a *ssa.Alloc, path []int
 	} else {
 		res = mkPhi(alts)
 	}
-	rd.memo[k] = res
+	if rd.loopHits == hits0 {
+		rd.memo[k] = res // complete: no in-progress block was cut off below this one
+	}
 	return res
 }
 
@@ -1193,4 +1201,72 @@ func (w *World) argReadOnly(call ssa.CallInstruction, ai int, depth int) bool {
 		}
 	}
 	return true
+}
+
+// counter recognises a loop-carried integer that starts at 0 and is incremented by 1 on
+// exactly one conditional edge:   n := 0; for ... { if C { n = n + 1 } }   and returns
+// counter(C). Merge phis inside the loop that only forward the counter resolve to the same.
+func (b *builder) counter(p *ssa.Phi) *Expr {
+	if !isNumeric(p.Type()) {
+		return nil
+	}
+	// find the header phi of the strongly connected phi/+1 component containing p
+	comp := map[ssa.Value]bool{}
+	var incs []*ssa.BinOp
+	inits := 0
+	bad := false
+	var visit func(v ssa.Value)
+	visit = func(v ssa.Value) {
+		if comp[v] || bad {
+			return
+		}
+		switch x := v.(type) {
+		case *ssa.Phi:
+			comp[v] = true
+			for _, e := range x.Edges {
+				visit(e)
+			}
+		case *ssa.BinOp:
+			c, ok := x.Y.(*ssa.Const)
+			if x.Op != token.ADD || !ok {
+				bad = true
+				return
+			}
+			if n, ok := constInt(c); !ok || n != 1 {
+				bad = true
+				return
+			}
+			comp[v] = true
+			incs = append(incs, x)
+			visit(x.X)
+		case *ssa.Const:
+			if n, ok := constInt(x); !ok || n != 0 {
+				bad = true
+				return
+			}
+			inits++
+		default:
+			bad = true
+		}
+	}
+	visit(p)
+	if bad || len(incs) != 1 || inits == 0 {
+		return nil
+	}
+	inc := incs[0]
+	blk := inc.Block()
+	if len(blk.Preds) != 1 {
+		return nil
+	}
+	pred := blk.Preds[0]
+	iff, ok := pred.Instrs[len(pred.Instrs)-1].(*ssa.If)
+	if !ok {
+		return nil
+	}
+	pol := "true"
+	if pred.Succs[0] != blk {
+		pol = "false"
+	}
+	cond := b.expr(iff.Cond)
+	return &Expr{Op: "counter", Name: pol, Args: []*Expr{cond}}
 }
